@@ -25,6 +25,9 @@ use surf_n_term::{
     DecMode, Error, Face, KeyName, Position, SystemTerminal, Terminal, TerminalCommand, TerminalEvent, TerminalWaker,
 };
 
+mod full;
+pub use full::world as full_world;
+
 pub fn world() -> World {
     World {
         name: "tty",
@@ -163,6 +166,8 @@ struct Kernel {
     modes: Modes,
     person: Personality,
     received: usize,
+    /// full-stack world: the emulator also keeps a screen (cells, cursor, current face)
+    vscreen: Option<full::VScreen>,
     faults: Faults,
     // actors
     waker: Option<TerminalWaker>,
@@ -258,6 +263,9 @@ impl Kernel {
                 if byte == 0x1b {
                     VtState::Esc
                 } else {
+                    if let Some(vs) = self.vscreen.as_mut() {
+                        vs.ground(byte);
+                    }
                     VtState::Ground
                 }
             }
@@ -308,6 +316,9 @@ impl Kernel {
 
     fn emu_csi(&mut self, params: &[u8], fin: u8) {
         let text = String::from_utf8_lossy(params).to_string();
+        if let Some(vs) = self.vscreen.as_mut() {
+            vs.csi(&text, fin);
+        }
         match fin {
             b'h' | b'l' if text.starts_with('?') => {
                 let on = fin == b'h';
@@ -423,6 +434,11 @@ impl Kernel {
                     if resize {
                         self.winsize.ws_col = self.winsize.ws_col % 200 + 1;
                         self.winsize.ws_row = self.winsize.ws_row % 60 + 1;
+                        if let Some(mut vs) = self.vscreen.take() {
+                            // the window changes size: what it shows afterwards is up to the emulator
+                            vs.resize(self.winsize, &mut self.src);
+                            self.vscreen = Some(vs);
+                        }
                     }
                     let now = self.now;
                     self.src.log(|| format!("t={}us raise({})", now / US, sig));
@@ -841,6 +857,7 @@ fn new_kernel(mut src: Src) -> Kernel {
         modes: Modes { cursor_visible: true, ..Default::default() },
         person,
         received: 0,
+        vscreen: None,
         faults,
         waker: None,
         signals_enabled: false,
